@@ -60,6 +60,33 @@ def descendants(e, depth=0, parent=None, acc=None):
     return acc
 
 
+def doc_invariant(root):
+    """C06 over the whole document: at every node the schema-ordered view holds exactly the children of the insertion-ordered view (by identity, no
+    duplicates) and every child's parent pointer is the node.  Returns the list of nodes where that fails."""
+    bad = []
+    stack = [root]
+    seen = set()
+    while stack:
+        x = stack.pop()
+        if id(x) in seen:
+            bad.append('%s reachable twice' % x.name)
+            continue
+        seen.add(id(x))
+        un = x.get_children(ordered=False)
+        try:
+            od = x.get_children()
+        except Exception as ex:
+            bad.append('%s: ordered view raises %s' % (x.name, type(ex).__name__))
+            od = un
+        if sorted(map(id, od)) != sorted(map(id, un)) or len(set(map(id, un))) != len(un):
+            bad.append('%s: ordered view %s, insertion view %s' % (x.name, [c.name for c in od], [c.name for c in un]))
+        for c in un:
+            if c.up is not x:
+                bad.append('%s: child %s has another parent pointer' % (x.name, c.name))
+            stack.append(c)
+    return bad[:4]
+
+
 def first_diff(a, b, path='receiver'):
     names = ['class', 'attributes', 'value', 'ordered children', 'unordered children', 'parent', 'serialisation']
     for k in range(7):
@@ -109,6 +136,7 @@ for ci, case in enumerate(job['cases']):
             rec['receiver'] = type(recv).__name__
             rec['target'] = type(tgt).__name__ if tgt is not None else type(extra).__name__
             ids = {}
+            rec['inv_before'] = doc_invariant(root)
             before = snap(recv, ids)
             try:
                 if kind.startswith('remove'):
@@ -121,6 +149,7 @@ for ci, case in enumerate(job['cases']):
             except Exception as ex:
                 rec['raised'] = type(ex).__name__
             after = snap(recv, ids)
+            rec['inv_after'] = doc_invariant(root)
             rec['same'] = before == after
             if not rec['same']:
                 rec['diff'] = first_diff(before, after)
